@@ -145,98 +145,100 @@ def execute(case, scratch_root):
 
 
 def judge(case, obs):
-    """The oracle: list of (what, detail) violations. Demands only what the property states."""
+    """The oracle: list of (what, detail) violations. Demands only what the property states.
+    The same symptom seen in files mode and in stdout mode is one violation (detail has both)."""
     exp = case["expect"]
-    out = []
+    merged = {}
+
+    def add(what, tag, detail):
+        merged.setdefault(what, {})[tag] = detail
+
     fn_names = case.get("fn_names", {})
-    expected = set(exp["formatted"])
-    dontcare = set(exp["dontcare"])
+    expected = set(exp.get("formatted", []))
+    dontcare = set(exp.get("dontcare", []))
     allfiles = set(case["files"])
     stdin = bool(case["mode"].get("stdin"))
-
-    def abnormal(r, tag):
-        if common.abnormal(r["rc"], r["stderr"].encode()):
-            out.append((tag + ":abnormal_exit", {"rc": r["rc"], "stderr": r["stderr"][:600]}))
-            return True
-        return False
-
     so = obs["stdout_run"]
-    ab = abnormal(so, "stdin" if stdin else "stdout")
-    # nothing may be written by a run that emits to stdout
+    fr = obs.get("files_run")
+    abn = {}
+    for tag, r in (("stdout_mode", so), ("files_mode", fr)):
+        if r is None:
+            continue
+        abn[tag] = common.abnormal(r["rc"], r["stderr"].encode())
+        if abn[tag]:
+            add("abnormal_exit", tag, {"rc": r["rc"], "stderr": r["stderr"][:600]})
+    # a run that emits to stdout may not write anything
     if so["changed"] or so["touched"] or so["new"] or so["missing"]:
-        out.append((("stdin" if stdin else "stdout") + ":tree_modified",
-                    {k: so[k] for k in ("changed", "touched", "new", "missing")}))
+        add("tree_modified_by_stdout_emit", "stdout_mode", {k: so[k] for k in ("changed", "touched", "new", "missing")})
+
     if stdin:
         # standard input never recurses: only the root's text may appear
         text = so["stdout"]
         leaked = sorted(p for p, fn in fn_names.items() if p != case["root"] and ("fn " + fn + "()") in text)
         if leaked:
-            out.append(("stdin:child_formatted", {"leaked": leaked}))
-        if exp["status"] == "ok" and not ab:
+            add("stdin_child_formatted", "stdout_mode", {"leaked": leaked})
+        if exp["status"] == "ok" and not abn["stdout_mode"]:
             root_fn = fn_names.get(case["root"])
             if so["rc"] != 0:
-                out.append(("stdin:unexpected_failure", {"rc": so["rc"], "stderr": so["stderr"][:600]}))
+                add("unexpected_failure", "stdout_mode", {"rc": so["rc"], "stderr": so["stderr"][:600]})
             elif root_fn and exp.get("stdin_root_check") and ("fn " + root_fn + "() {}") not in text:
-                out.append(("stdin:root_not_formatted", {"stdout": text[:600]}))
-        return out
+                add("stdin_root_not_formatted", "stdout_mode", {"stdout": text[:600]})
+        return sorted(merged.items())
 
-    fr = obs["files_run"]
-    abf = abnormal(fr, "files")
     if exp["status"] == "error":
         # an ambiguous or missing module is an error rather than a guess
-        for tag, r in (("stdout", so), ("files", fr)):
+        for tag, r in (("stdout_mode", so), ("files_mode", fr)):
             if r["rc"] == 0:
-                out.append((tag + ":negative_tree_accepted", {"rc": 0, "changed": r["changed"],
-                                                                "headers": [h[0] for h in r.get("headers", [])],
-                                                                "why_negative": exp.get("why")}))
+                add("negative_tree_accepted", tag, {"rc": 0, "changed": r["changed"],
+                                                    "headers": [h[0] for h in r.get("headers", [])],
+                                                    "why_negative": exp.get("why")})
             elif not r["stderr"].strip():
-                out.append((tag + ":negative_tree_no_diagnostic", {"rc": r["rc"]}))
+                add("negative_tree_no_diagnostic", tag, {"rc": r["rc"]})
         if fr["changed"] or fr["touched"] or fr["new"] or fr["missing"]:
-            out.append(("files:negative_tree_modified", {k: fr[k] for k in ("changed", "touched", "new", "missing")}))
-        return out
+            add("negative_tree_modified", "files_mode", {k: fr[k] for k in ("changed", "touched", "new", "missing")})
+        return sorted(merged.items())
     if exp["status"] == "norc":
         # skip_children on a tree with an unresolvable child: only "no child is formatted" is demanded
         bad = sorted(set(fr["changed"]) - expected)
         if bad:
-            out.append(("files:decoy_or_excluded_file_formatted", {"files": bad}))
-        return out
+            add("excluded_or_undeclared_file_formatted", "files_mode", {"files": bad})
+        return sorted(merged.items())
 
     # positive tree ------------------------------------------------------
+    roles = case.get("roles", {})
     changed = set(fr["changed"])
     extra = sorted(changed - expected - dontcare)
     lost = sorted(expected - changed)
     if extra:
-        kinds = {p: case.get("roles", {}).get(p, "?") for p in extra}
-        out.append(("files:decoy_or_excluded_file_formatted", {"files": extra, "roles": kinds}))
+        add("excluded_or_undeclared_file_formatted", "files_mode", {"files": extra, "roles": {p: roles.get(p, "?") for p in extra}})
     if lost:
-        out.append(("files:reachable_file_not_formatted",
-                    {"files": lost, "rc": fr["rc"], "stderr": fr["stderr"][:600]}))
+        add("reachable_file_not_formatted", "files_mode", {"files": lost, "rc": fr["rc"], "stderr": fr["stderr"][:600]})
     must_keep = allfiles - expected - dontcare
     t = sorted(set(fr["touched"]) & must_keep)
     if t:
-        out.append(("files:unformatted_file_touched", {"files": t}))
+        add("unformatted_file_touched", "files_mode", {"files": t})
     if fr["new"] or fr["missing"]:
-        out.append(("files:files_created_or_removed", {"new": fr["new"], "missing": fr["missing"]}))
-    if fr["rc"] != 0 and not extra and not lost and not abf:
-        out.append(("files:unexpected_failure", {"rc": fr["rc"], "stderr": fr["stderr"][:600]}))
+        add("files_created_or_removed", "files_mode", {"new": fr["new"], "missing": fr["missing"]})
+    if fr["rc"] != 0 and not extra and not lost and not abn["files_mode"]:
+        add("unexpected_failure", "files_mode", {"rc": fr["rc"], "stderr": fr["stderr"][:600]})
     # stdout mode: each expected file listed exactly once, nothing else listed
     counts = {}
     for rel, _raw in so["headers"]:
         counts[rel] = counts.get(rel, 0) + 1
     twice = sorted(p for p, n in counts.items() if n > 1 and p not in dontcare)
     if twice:
-        out.append(("stdout:file_listed_more_than_once",
-                    {"files": twice, "headers": [h[1] for h in so["headers"] if h[0] in twice]}))
+        add("file_formatted_more_than_once", "stdout_mode",
+            {"files": twice, "headers": [h[1] for h in so["headers"] if h[0] in twice]})
     listed = set(counts)
     extra = sorted(listed - expected - dontcare)
     lost = sorted(expected - listed)
     if extra:
-        out.append(("stdout:decoy_or_excluded_file_listed", {"files": extra}))
+        add("excluded_or_undeclared_file_formatted", "stdout_mode", {"files": extra, "roles": {p: roles.get(p, "?") for p in extra}})
     if lost:
-        out.append(("stdout:reachable_file_not_listed", {"files": lost, "rc": so["rc"], "stderr": so["stderr"][:600]}))
-    if so["rc"] != 0 and not extra and not lost and not ab:
-        out.append(("stdout:unexpected_failure", {"rc": so["rc"], "stderr": so["stderr"][:600]}))
-    return out
+        add("reachable_file_not_formatted", "stdout_mode", {"files": lost, "rc": so["rc"], "stderr": so["stderr"][:600]})
+    if so["rc"] != 0 and not extra and not lost and not abn["stdout_mode"]:
+        add("unexpected_failure", "stdout_mode", {"rc": so["rc"], "stderr": so["stderr"][:600]})
+    return sorted(merged.items())
 
 
 # --------------------------------------------------------------------------
@@ -247,35 +249,44 @@ _SCRATCH = None
 
 
 def work(item):
-    """item = (shape, devs, decoy_policy). Returns a list of per-case result dicts."""
+    """item = (shape, devs, decoy_policy). Returns a list of per-case result dicts.
+    Variants of one plan run smallest first (no decoys, each single decoy, all decoys); a symptom
+    (`what`) already reported for a smaller variant of the same plan is counted, not reported again."""
     shape, devs, policy = item
     results = []
     built = M.build_cases(shape, devs, policy)
     if built.get("dropped"):
         return [{"dropped": built["dropped"], "plan": M.plan_id(shape, devs)}]
+    seen_what = set()
     for case in built["cases"]:
         obs = execute(case, _SCRATCH)
         v = judge(case, obs)
         res = {"id": case["id"], "nontrivial": case["nontrivial"], "status": case["expect"]["status"],
                "violations": [], "features": case.get("features", []), "n_real": case.get("n_real", 0),
                "n_decoys": case.get("n_decoys", 0), "level": len(devs), "plan": M.plan_id(shape, devs),
-               "runs": len(obs)}
+               "runs": len(obs), "failed": bool(v), "dup_symptoms": 0}
         if v:
             # determinism: re-run once
             obs2 = execute(case, _SCRATCH)
+            res["runs"] += len(obs2)
             v2 = judge(case, obs2)
-            if sorted(w for w, _ in v) != sorted(w for w, _ in v2):
+            if [w for w, _ in v] != [w for w, _ in v2]:
                 res["violations"].append(("nondeterministic", {"case": case, "first": [w for w, _ in v],
                                                                 "second": [w for w, _ in v2]}))
             else:
                 for what, det in v:
-                    res["violations"].append((what, {"observed": det, "case": case, "obs": obs}))
-        else:
-            res["sample"] = {"id": case["id"], "tree": sorted(case["files"]), "root_text": case["files"][case["root"]],
-                             "mode": case["mode"], "expected_formatted": case["expect"]["formatted"],
+                    if what in seen_what:
+                        res["dup_symptoms"] += 1
+                        continue
+                    seen_what.add(what)
+                    res["violations"].append((what, {"observed": det, "case": case}))
+        elif case.get("sample"):
+            res["sample"] = {"id": case["id"], "tree": {p: case["roles"].get(p) for p in sorted(case["files"])},
+                             "root_text": case["files"][case["root"]],
+                             "mode": case["mode"], "expected_formatted": case["expect"].get("formatted"),
                              "expected_status": case["expect"]["status"],
                              "observed_changed": obs.get("files_run", {}).get("changed"),
-                             "observed_headers": [h[0] for h in obs["stdout_run"]["headers"]]} if case.get("sample") else None
+                             "observed_headers": [h[0] for h in obs["stdout_run"]["headers"]]}
         results.append(res)
     return results
 
@@ -302,7 +313,7 @@ def explore(run):
     t0 = time.time()
     with common.Scratch("c13") as sc:
         _SCRATCH = sc.root
-        failing_singles = {}  # shape -> set of dev strings that fail alone
+        failing_singles = {}  # shape id -> list of failing deviation sets (frozensets of dev strings)
         levels = M.levels(tier)
         completed = []
         for lvl in levels:
@@ -335,13 +346,17 @@ def explore(run):
                             run.nontrivial_case(r["id"])
                         if r.get("sample"):
                             run.sample(r["sample"], limit=8)
-                        if r["violations"]:
+                        if r["failed"]:
                             run.count("cases_with_violation")
-                            for what, det in r["violations"]:
-                                run.violation(r["id"], what, det)
-                            if r["level"] <= 1:
-                                shape_s, devs_s = r["plan"]
-                                failing_singles.setdefault(shape_s, set()).update(devs_s)
+                        for what, det in r["violations"]:
+                            run.violation(r["id"], what, det)
+                        if r["dup_symptoms"]:
+                            run.count("symptoms_repeated_on_larger_decoy_variant_of_same_plan", r["dup_symptoms"])
+                        if r["failed"] and r["level"] >= 1:
+                            shape_s, devs_s = r["plan"]
+                            fs = frozenset(devs_s)
+                            if fs not in failing_singles.setdefault(shape_s, []):
+                                failing_singles[shape_s].append(fs)
                 pos += slice_n
             if capped:
                 run.exhaustive = False
